@@ -107,6 +107,18 @@ var props = map[string]propCfg{
 		Bounds:  "trees as in C05; default field names of 2-3 symbolic bytes (identifier-like, and one needing quoting) disjoint from the query's fields",
 		Outside: "deeper trees",
 	},
+	"C08": {
+		Quick: []hrun{
+			{Harness: "QuoteVerbatim", Params: P("N", 0)}, {Harness: "QuoteVerbatim", Params: P("N", 1)}, {Harness: "QuoteVerbatim", Params: P("N", 2)}, {Harness: "QuoteVerbatim", Params: P("N", 3)},
+			{Harness: "EscapeVerbatim", Params: P("N", 1)}, {Harness: "EscapeVerbatim", Params: P("N", 2)}, {Harness: "EscapeVerbatim", Params: P("N", 3)},
+		},
+		Thorough: []hrun{
+			{Harness: "QuoteVerbatim", Params: P("N", 0)}, {Harness: "QuoteVerbatim", Params: P("N", 1)}, {Harness: "QuoteVerbatim", Params: P("N", 2)}, {Harness: "QuoteVerbatim", Params: P("N", 3)}, {Harness: "QuoteVerbatim", Params: P("N", 4)},
+			{Harness: "EscapeVerbatim", Params: P("N", 1)}, {Harness: "EscapeVerbatim", Params: P("N", 2)}, {Harness: "EscapeVerbatim", Params: P("N", 3)}, {Harness: "EscapeVerbatim", Params: P("N", 4)},
+		},
+		Bounds:  "quoting: all byte strings w of length <= 3 (quick) / <= 4 (thorough) that are valid UTF-8 without '\"' and NUL, every byte value; escaping: all ASCII texts w of length <= 3/4 whose first byte is not a digit, sign, dot or i/n (numbers, inf, nan) and that do not spell AND/OR/NOT/TO",
+		Outside: "longer texts; non-ASCII texts in the escaping clause; single-quoted phrases",
+	},
 	"C10": {
 		Quick:    withOnly(append(parseRuns(false), ctxRuns(false)...), c10ids, false),
 		Thorough: withOnly(append(parseRuns(true), ctxRuns(true)...), c10ids, false),
